@@ -559,11 +559,13 @@ func (pf *Portfolio) check(asserts []*Term, vars []*Term) QueryResult {
 	}
 	order := []attempt{{"z3new", false}, {"cvc5int", false}, {"cvc5", false}}
 	var intScript string
+	intApprox := false
 	if anyHard(asserts) {
 		order = []attempt{{"cvc5int", false}, {"z3new", false}, {"cvc5", false}}
 		if !noIntEnc {
-			if txt, _, ok, why := intEncode(asserts, vars); ok {
+			if txt, approx, ok, why := intEncode(asserts, vars); ok {
 				intScript = txt
+				intApprox = approx
 				order = []attempt{{"z3new", true}, {"cvc5", true}, {"cvc5int", false}, {"z3new", false}}
 			} else {
 				if slowLog {
@@ -598,7 +600,15 @@ func (pf *Portfolio) check(asserts []*Term, vars []*Term) QueryResult {
 		}
 		launched++
 		if at.ints {
-			go func() { ch <- ans{p.queryRaw(intScript, vars, pf.timeoutMs, key), p} }()
+			go func() {
+				r := p.queryRaw(intScript, vars, pf.timeoutMs, key)
+				if intApprox && r.Status == Sat {
+					// over-approximated encoding: only unsat is meaningful
+					r.Status = Unknown
+					r.Model = nil
+				}
+				ch <- ans{r, p}
+			}()
 		} else {
 			go func() { ch <- ans{p.query(asserts, vars, pf.timeoutMs), p} }()
 		}
